@@ -21,6 +21,8 @@ def key_family(name, n, rng=None):
         ks = [bytes([0xFF, 0xFE, i // 256, i % 256, 0x00]) for i in range(n)]
     elif name == "long":         # hundreds of bytes
         ks = [bytes([i // 256, i % 256]) + bytes(rng.randrange(256) for _ in range(rng.randrange(100, 400))) for i in range(n)]
+    elif name == "len128":       # key lengths around the one-byte varint boundary
+        ks = [bytes([i // 256, i % 256]) + b"k" * (124 + (i % 4)) for i in range(n)]
     elif name == "biglast":      # last key of several KiB dominating the index
         ks = [(i + 1).to_bytes(4, "big") for i in range(n - 1)] + [b"\xff" * 6000]
     else:
@@ -48,6 +50,9 @@ def value_family(name, tokens, rng=None):
             b = t.encode() + bytes(rng.randrange(256) for _ in range([1, 7, 300, 5000][i % 4]))
         elif name == "zeros":
             b = t.encode() + b"\x00" * (10 + i)
+        elif name == "varint":   # value lengths at the varint boundaries of the record header
+            n = [127, 128, 16383, 16384][i % 4]
+            b = (t.encode() + bytes(rng.randrange(256) for _ in range(n)))[:n]
         else:
             raise ValueError(name)
         out[t] = b
@@ -55,7 +60,7 @@ def value_family(name, tokens, rng=None):
     return out
 
 
-VALUE_FAMILIES = ["short", "marker", "sized", "zeros"]
+VALUE_FAMILIES = ["short", "marker", "sized", "zeros", "varint"]
 
 
 def hexkeys(ks):
